@@ -4,7 +4,7 @@
    Both directions are machine-checked: the refutation with an explicit schedule, and the theorem that this window
    (the waiter polling an empty stream, or sleeping behind a thread that is about to notify) is where a held-up waiter is found,
    and (history) that a polling waiter got there straight from a readiness test made before the dispatch. *)
-From V Require Import lib.Base model.Serve proofs.ServeP proofs.ServeG proofs.ServeTie gen.Gen_serve.
+From V Require Import lib.Base model.Serve proofs.ServeP proofs.ServeG proofs.ServeL proofs.ServeTie gen.Gen_serve.
 
 Fixpoint runl (s : st) (evs : list (label * nat)) : option st :=
   match evs with [] => Some s | (l, i) :: r => match step l i s with Some s' => runl s' r | None => None end end.
@@ -68,6 +68,40 @@ Example c14_window_sample :
   | None => False
   end.
 Proof. vm_compute. repeat split. Qed.
+
+(* the BOUNDED half (proofs/ServeL.v): the hold-up above is never a deadlock and never longer than one timeout of the waiter itself.
+   From every reachable state in which the waiter's reply has been processed and the waiter is anywhere inside wait()/serve(), the
+   waiter's OWN moves - its next program step whenever it has one, its poll()/Condition.wait() timeout when it has none - bring it to
+   Returned within six moves, at most one of them a timeout; no step of any other thread, no further traffic, no notification is
+   needed. (own_n n w s = Some (s', t): after at most n own moves of w from s the state is s', t timeouts were used.) *)
+Theorem c14_late_waiter_returns_alone : forall servers s w q, reach (init servers) s ->
+  myseq (thrs s w) = Some q -> ready s q = true -> in_loop (tpc (thrs s w)) = true ->
+  exists s' t, own_n 6 w s = Some (s', t) /\ tpc (thrs s' w) = Returned /\ t <= 1.
+Proof.
+  intros servers s w q R Hm Hr Hl.
+  destruct (late_waiter_returns_alone s w q (invA_reach _ _ R) (invB_reach _ _ R) Hm Hr Hl) as (s' & t & H & Hret).
+  exists s', t. split; [exact H|]. split; [exact Hret|].
+  exact (at_most_one_timeout 6 s w q s' t (invA_reach _ _ R) (invB_reach _ _ R) Hm Hr Hl H).
+Qed.
+Print Assumptions c14_late_waiter_returns_alone.
+(* ... and a timeout is needed ONLY in the window of c14_only_this_window or one step before it (near_window: asleep; polling an empty
+   stream; at the try-acquire with the lock taken, or with the lock free and nothing to read): everywhere else a waiter whose reply
+   has been processed returns by program steps alone - "as soon as", in the property's words *)
+Theorem c14_timeout_needed_only_near_the_window : forall servers n s w q s' t, reach (init servers) s ->
+  myseq (thrs s w) = Some q -> ready s q = true -> in_loop (tpc (thrs s w)) = true ->
+  own_n n w s = Some (s', t) -> t <> 0 -> near_window s w.
+Proof.
+  intros servers n s w q s' t R. apply alone_needs_timeout_only_in_window; [exact (invA_reach _ _ R)|exact (invB_reach _ _ R)].
+Qed.
+Print Assumptions c14_timeout_needed_only_near_the_window.
+(* non-vacuity: at the end of the refutation's schedule W is polling an empty stream with its reply dispatched; alone it returns in
+   five moves, exactly one of them its timeout (S2 -timeout-> S3 -> S4 -> LoopTest -> Returned) *)
+Example c14_stalled_waiter_gets_out_by_its_timeout :
+  match runl (init (fun i => Nat.eqb i 1)) stall_schedule with
+  | Some s => match own_n 6 0 s with Some (s', t) => tpc (thrs s' 0) = Returned /\ t = 1 | None => False end
+  | None => False
+  end.
+Proof. vm_compute. split; reflexivity. Qed.
 
 (* the generated program has the order the refutation uses: release, notify_all, then dispatch *)
 Theorem c14_program_is_current : Gen_serve.serve_prog = Serve.serve_prog.
